@@ -448,7 +448,13 @@ impl<T: Debug + PartialEq, F: RealNumber, D: Distance<T, F>> CoverTree<T, F, D> 
         if d == F::zero() {
             std::i64::MIN
         } else {
-            (self.inv_log_base * d.ln()).ceil().to_i64().unwrap()
+            let mut s = (self.inv_log_base * d.ln()).ceil().to_i64().unwrap();
+            // the logarithm is rounded: a distance a few ulps above base^s could get level s, whose cover
+            // radius base^s does not reach it (the point would be set aside and, at the root, lost)
+            while self.get_cover_radius(s) < d {
+                s += 1;
+            }
+            s
         }
     }
 
